@@ -152,3 +152,6 @@ Fixpoint for_list_brk_p_aux {S} (l : list Z) (body : Z -> S -> S * bool) (s : S)
   | x :: t => let '(s', b) := body x s in if b then s' else for_list_brk_p_aux t body s'
   end.
 Definition for_list_brk_p {S} (l : list Z) (dummy : unit) (s : S) (body : Z -> S -> S * bool) : S := for_list_brk_p_aux l body s.
+(* a[-1] = v on a population / fitness vector; the finite value of an extended rational *)
+Definition set_last {A} (l : list A) (x : A) : list A := match l with [] => [] | _ => removelast l ++ [x] end.
+Definition Qinf_val (a : Qinf) : Q := match a with Fin q => q | _ => 0%Q end.
